@@ -29,6 +29,52 @@ func (ro *Roles) defsReads(r *Report, rule string) {
 	add(retention, "retention settings are read at save time")
 	add(listP, "the list of defined pipelines is reported as of now")
 	add(ro.Replace, "the reload itself")
+	// a helper all of whose callers are allowed functions (or such helpers) reads on their behalf
+	var helperOfAllowed func(f *ssa.Function, d int) (*ssa.Function, string)
+	helperOfAllowed = func(f *ssa.Function, d int) (*ssa.Function, string) {
+		if d > 2 {
+			return nil, ""
+		}
+		var host *ssa.Function
+		why := ""
+		n := 0
+		okAll := true
+		for _, g := range w.ModFuncs {
+			allInstrs(g, func(in ssa.Instruction) {
+				if mc, ok := in.(*ssa.MakeClosure); ok && mc.Fn == ssa.Value(f) {
+					okAll = false
+				}
+				c := callCommonOf(in)
+				if c == nil {
+					for _, op := range in.Operands(nil) {
+						if *op == ssa.Value(f) {
+							okAll = false // used as a value
+						}
+					}
+					return
+				}
+				if c.StaticCallee() != f {
+					return
+				}
+				n++
+				top := g
+				for top.Parent() != nil {
+					top = top.Parent()
+				}
+				if wy, ok := allowed[top]; ok {
+					host, why = top, wy
+				} else if h, wy := helperOfAllowed(top, d+1); h != nil {
+					host, why = h, wy
+				} else {
+					okAll = false
+				}
+			})
+		}
+		if n == 0 || !okAll {
+			return nil, ""
+		}
+		return host, why
+	}
 	n := 0
 	for _, fn := range w.ModFuncs {
 		allInstrs(fn, func(in ssa.Instruction) {
@@ -48,6 +94,8 @@ func (ro *Roles) defsReads(r *Report, rule string) {
 			key := FuncName(fn) + ": reads the live definitions"
 			if why, ok := allowed[top]; ok {
 				r.OK(rule, key, w.InstrPos(in), "allowed live read: "+why)
+			} else if host, why := helperOfAllowed(top, 0); host != nil {
+				r.OK(rule, key, w.InstrPos(in), "helper called only by "+FuncName(host)+" — allowed live read: "+why)
 			} else {
 				r.Viol(rule, key, w.InstrPos(in), "reads r.defs although it is not one of the functions allowed to consult the current definitions: a job that was accepted before a reload would run with (or be governed by) the new definition instead of its own snapshot")
 			}
@@ -253,105 +301,8 @@ func (ro *Roles) sharedSlices(r *Report, rule string) {
 		}
 		return false
 	}
-	// derives(v, from): v is from, a reslice of it, or a phi/append chain rooted in a reslice of it
-	var derives func(v, from ssa.Value, d int) bool
-	derives = func(v, from ssa.Value, d int) bool {
-		if d > 8 {
-			return false
-		}
-		v = w.Resolve(v)
-		if v == from {
-			return true
-		}
-		switch x := v.(type) {
-		case *ssa.Slice:
-			return derives(x.X, from, d+1)
-		case *ssa.Phi:
-			for _, e := range x.Edges {
-				if e != ssa.Value(x) && derives(e, from, d+1) {
-					return true
-				}
-			}
-		case *ssa.Call:
-			if b, ok := x.Call.Value.(*ssa.Builtin); ok && b.Name() == "append" {
-				return derives(x.Call.Args[0], from, d+1)
-			}
-		}
-		return false
-	}
-	// writesThrough(fn, root): instructions of fn that write into the backing array of root
-	type wr struct {
-		in   ssa.Instruction
-		what string
-	}
-	var summary func(f *ssa.Function, pi int, d int) []wr
-	writesThrough := func(fn *ssa.Function, root ssa.Value, d int) []wr {
-		var out []wr
-		for _, f := range withClosures(fn) {
-			allInstrs(f, func(in ssa.Instruction) {
-				switch x := in.(type) {
-				case *ssa.Store:
-					if ia, ok := w.resolveAddr(x.Addr).(*ssa.IndexAddr); ok && derives(ia.X, root, 0) {
-						out = append(out, wr{in, "element store"})
-					}
-				case *ssa.Call:
-					if b, ok := x.Call.Value.(*ssa.Builtin); ok {
-						switch b.Name() {
-						case "append":
-							// append onto a reslice that is shorter than its operand overwrites in place
-							if sl, ok := w.Resolve(x.Call.Args[0]).(*ssa.Slice); ok && sl.High != nil && derives(sl.X, root, 0) {
-								out = append(out, wr{in, "append onto a shortened reslice (in-place filter)"})
-							} else if ap, ok := w.Resolve(x.Call.Args[0]).(*ssa.Phi); ok && derives(ap, root, 0) && !ssaIs(root, ap) {
-								// result := s[:0]; for … { result = append(result, …) }
-								for _, e := range ap.Edges {
-									if sl, ok := w.Resolve(e).(*ssa.Slice); ok && sl.High != nil && derives(sl.X, root, 0) {
-										out = append(out, wr{in, "append onto a shortened reslice (in-place filter)"})
-									}
-								}
-							}
-						case "copy":
-							if derives(x.Call.Args[0], root, 0) {
-								out = append(out, wr{in, "copy into it"})
-							}
-						}
-						return
-					}
-					callee := x.Call.StaticCallee()
-					if callee == nil {
-						return
-					}
-					args := x.Call.Args
-					if callee.Pkg != nil && callee.Pkg.Pkg.Path() == "sort" || callee.Pkg != nil && callee.Pkg.Pkg.Path() == "slices" && strings.HasPrefix(callee.Name(), "Sort") {
-						if len(args) > 0 && derives(args[0], root, 0) {
-							out = append(out, wr{in, callee.Pkg.Pkg.Path() + "." + callee.Name() + " reorders it"})
-						}
-						return
-					}
-					if w.InModule(callee) && callee.Blocks != nil && d < 3 {
-						for i, a := range args {
-							if i < len(callee.Params) && derives(a, root, 0) {
-								for _, s := range summary(callee, i, d+1) {
-									out = append(out, wr{in, "passed to " + FuncName(callee) + ", which does: " + s.what})
-								}
-							}
-						}
-					}
-				}
-			})
-		}
-		return out
-	}
-	memo := map[[2]interface{}][]wr{}
-	summary = func(f *ssa.Function, pi int, d int) []wr {
-		k := [2]interface{}{f, pi}
-		if v, ok := memo[k]; ok {
-			return v
-		}
-		memo[k] = nil
-		v := writesThrough(f, f.Params[pi], d)
-		memo[k] = v
-		return v
-	}
+	sf := &sliceFlow{w: w, memo: map[[2]interface{}][]sliceWrite{}}
+	writesThrough := sf.writesThrough
 	n, bad := 0, 0
 	for _, fn := range w.ModFuncs {
 		top := fn
@@ -425,4 +376,130 @@ func (ro *Roles) whoDeletesJobs(r *Report, rule string) {
 	if n == 0 {
 		r.Viol(rule, "module: retention delete", "-", "no delete from the id index found (rule matches nothing)")
 	}
+}
+
+// sliceFlow: which instructions write into the backing array of a slice value (directly, or
+// in module callees the slice is handed to — parameter summaries, depth ≤ 3).
+type sliceWrite struct {
+	in   ssa.Instruction
+	what string
+}
+
+type sliceFlow struct {
+	w    *World
+	memo map[[2]interface{}][]sliceWrite
+	// returnCounts: handing the slice back to the caller counts as a (potential) write
+	returnCounts bool
+}
+
+// derives(v, from): v is from, a reslice of it, or a phi/append chain rooted in a reslice of it
+func (sf *sliceFlow) derives(v, from ssa.Value, d int) bool {
+	w := sf.w
+	if d > 8 {
+		return false
+	}
+	v = w.Resolve(v)
+	if v == from {
+		return true
+	}
+	switch x := v.(type) {
+	case *ssa.Slice:
+		return sf.derives(x.X, from, d+1)
+	case *ssa.Phi:
+		for _, e := range x.Edges {
+			if e != ssa.Value(x) && sf.derives(e, from, d+1) {
+				return true
+			}
+		}
+	case *ssa.Call:
+		if b, ok := x.Call.Value.(*ssa.Builtin); ok && b.Name() == "append" {
+			return sf.derives(x.Call.Args[0], from, d+1)
+		}
+	}
+	return false
+}
+
+func (sf *sliceFlow) summary(f *ssa.Function, pi int, d int) []sliceWrite {
+	k := [2]interface{}{f, pi}
+	if v, ok := sf.memo[k]; ok {
+		return v
+	}
+	sf.memo[k] = nil
+	v := sf.writesThrough(f, f.Params[pi], d)
+	sf.memo[k] = v
+	return v
+}
+
+func (sf *sliceFlow) writesThrough(fn *ssa.Function, root ssa.Value, d int) []sliceWrite {
+	w := sf.w
+	derives := sf.derives
+	var out []sliceWrite
+	for _, f := range withClosures(fn) {
+		allInstrs(f, func(in ssa.Instruction) {
+			switch x := in.(type) {
+			case *ssa.Store:
+				if ia, ok := w.resolveAddr(x.Addr).(*ssa.IndexAddr); ok && derives(ia.X, root, 0) {
+					out = append(out, sliceWrite{in, "element store"})
+				}
+			case *ssa.Return:
+				for _, rv := range x.Results {
+					if _, isSlice := rv.Type().Underlying().(*types.Slice); isSlice && sf.returnCounts && derives(rv, root, 0) && d > 0 {
+						out = append(out, sliceWrite{in, "returns (a reslice of) it, which the caller may store"})
+					}
+				}
+			case *ssa.Call:
+				if b, ok := x.Call.Value.(*ssa.Builtin); ok {
+					switch b.Name() {
+					case "append":
+						// append onto a reslice that is shorter than its operand overwrites in place
+						if sl, ok := w.Resolve(x.Call.Args[0]).(*ssa.Slice); ok && sl.High != nil && derives(sl.X, root, 0) {
+							out = append(out, sliceWrite{in, "append onto a shortened reslice (in-place filter)"})
+						} else if ap, ok := w.Resolve(x.Call.Args[0]).(*ssa.Phi); ok && derives(ap, root, 0) && ssa.Value(ap) != root {
+							// result := s[:0]; for … { result = append(result, …) }
+							for _, e := range ap.Edges {
+								if sl, ok := w.Resolve(e).(*ssa.Slice); ok && sl.High != nil && derives(sl.X, root, 0) {
+									out = append(out, sliceWrite{in, "append onto a shortened reslice (in-place filter)"})
+								}
+							}
+						}
+					case "copy":
+						if derives(x.Call.Args[0], root, 0) {
+							out = append(out, sliceWrite{in, "copy into it"})
+						}
+					}
+					return
+				}
+				callee := x.Call.StaticCallee()
+				args := x.Call.Args
+				if callee == nil {
+					for _, a := range args {
+						if derives(a, root, 0) {
+							out = append(out, sliceWrite{in, "passed to a dynamic call"})
+						}
+					}
+					return
+				}
+				if callee.Pkg != nil && callee.Pkg.Pkg.Path() == "sort" || callee.Pkg != nil && callee.Pkg.Pkg.Path() == "slices" && strings.HasPrefix(callee.Name(), "Sort") {
+					if len(args) > 0 && derives(args[0], root, 0) {
+						out = append(out, sliceWrite{in, callee.Pkg.Pkg.Path() + "." + callee.Name() + " reorders it"})
+					}
+					return
+				}
+				if w.InModule(callee) && callee.Blocks != nil {
+					for i, a := range args {
+						if i < len(callee.Params) && derives(a, root, 0) {
+							if d >= 3 {
+								out = append(out, sliceWrite{in, "passed on too deep to follow"})
+								continue
+							}
+							for _, s := range sf.summary(callee, i, d+1) {
+								out = append(out, sliceWrite{in, "passed to " + FuncName(callee) + ", which does: " + s.what})
+							}
+						}
+					}
+				}
+			}
+		})
+	}
+	return out
 }
